@@ -68,6 +68,9 @@ structure Sub where
   skip : Bool
   intro : Bool
   sig : Sig
+  isMethod : Bool := false            -- member of `obj.methods` (not a constructor / static / vfunc / signal)
+  setProp : Option Str := none        -- `method.set_property`
+  getProp : Option Str := none        -- `method.get_property`
   deriving Repr, DecidableEq, Inhabited
 
 /-- `ast.Field` -/
@@ -83,6 +86,8 @@ structure Prop' where
   name : Str
   intro : Bool
   ty : Ty
+  setter : Option Str := none         -- `prop.setter`
+  getter : Option Str := none         -- `prop.getter`
   deriving Repr, DecidableEq, Inhabited
 
 inductive Body where
@@ -388,6 +393,30 @@ def propStep (ns : NS) (s : St) (i : Nat) : St :=
 
 def propWalk (ns : NS) (s : St) : St :=
   (List.range ns.tops.length).foldl (propStep ns) s
+
+/-! ### `_introspectable_property_analysis`: the accessor names -/
+
+/-- first loop, one property: `if not _type_is_introspectable(prop.type): prop.introspectable =
+    False; prop.setter = None; prop.getter = None` -/
+def propAfter (ns : NS) (tf : List Bool) (p : Prop') : Prop' :=
+  if tyIntro ns tf p.ty then p else { p with intro := false, setter := none, getter := none }
+
+/-- `for prop in obj.properties: if prop.name == x and not prop.introspectable: x = None; break` -/
+def clearAcc (ps : List Prop') : Option Str → Option Str
+  | none => none
+  | some n => if ps.any (fun p => p.name == n && !p.intro) then none else some n
+
+/-- second loop, one member of `obj.methods` -/
+def methodAfter (ps : List Prop') (m : Sub) : Sub :=
+  if m.isMethod then { m with setProp := clearAcc ps m.setProp, getProp := clearAcc ps m.getProp } else m
+
+/-- `_introspectable_property_analysis` at top-level node `t` (a node without properties is left
+    as it is: `clearAcc [] x = x`): its properties and nested callables afterwards -/
+def accessorsAfter (ns : NS) (tf : List Bool) (t : Top) : List Prop' × List Sub :=
+  if t.skip then (t.props, t.subs)
+  else
+    let ps := t.props.map (propAfter ns tf)
+    (ps, t.subs.map (methodAfter ps))
 
 /-- `_introspectable_pass3`: fields (anonymous callback: follow its flag and its skip; else the
     type), then the signals once more through `_introspectable_callable_analysis` -/
